@@ -12,6 +12,10 @@ PROFILES = {
  "meta": '<<"join","sub","sub","unsub","reg","reg","unreg","msess","msess","mreg","mreg","msub","msub","leave">>',
  "kill": '<<"join","join","sub","sub","reg","call","tst","tst","kill","kill","msess","leave","pub">>',
  "hist": '<<"join","sub","unsub","pub","pub","pub","pub","hist","hist","hist","adv","leave">>',
+ "stall": '<<"join","sub","pub","pub","reg","reg","call","call","call","yield","yield","yield","stall","stall","resume","adv","adv">>',
+ "burst": '<<"join","join","sub","sub","sub","reg","pub","bpub","bpub","bpub","leave","bmix">>',
+ "cancel": '<<"join","reg","regsh","call","call","call","cancel","cancel","ckill","ckill","answer","answer","yield","inverr","leave","adv","adv","adv">>',
+ "tst": '<<"join","join","sub","sub","tst","tst","tst","tst","kill","leave","leave","pub","msess">>',
  "mixed": '<<"join","sub","unsub","pub","reg","unreg","call","cancel","yield","inverr","leave","adv">>',
 }
 mode = os.environ.get("MODE", "hist" if profile == "hist" else "")
